@@ -188,7 +188,10 @@ func (d *dir) Close() error {
 			errs = append(errs, err)
 			continue
 		}
+		// hold the token while waiting, a GC or a new request must not use the wait group at the same time
+		<-repo.wgBlock
 		repo.wg.Wait()
+		repo.wgBlock <- struct{}{}
 		if !*d.conf.Storage.ReadOnly {
 			err = repo.uploads.DeleteAll()
 			if err != nil {
